@@ -515,6 +515,98 @@ fn main() {
             }
             cr
         }));
+        // ---- a sender that is stopped in the middle of a transfer (close-session packet) and restarted with the same
+        // configuration: same endpoint, TSI, TOI, FDT instance id, OTI and length, other bytes, no MD5. What the first
+        // session left behind must not leak into the second: a complete writer holds exactly one version.
+        let n_rs = ctx.tier.pick(400usize, 30_000);
+        gens.push(Gen::new("restarted_sender", n_rs, move |ctx, i| {
+            let mut rng = Rng::keyed(ctx.seed, "C03rs", 0, i as u64);
+            let mut cr = CaseResult::default();
+            let fec = *rng.pick(&[Fec::NoCode, Fec::Rs28, Fec::RaptorQ]);
+            let mut oti = OtiSpec::new(fec, 16, 4, if fec == Fec::NoCode { 0 } else { 1 });
+            oti.inband_fti = rng.chance(1, 2);
+            let len = rng.range(40, 300) as usize;
+            let mk = |rng: &mut Rng| {
+                let mut spec = SenderSpec::new(OtiSpec::new(Fec::NoCode, 4096, 8, 0));
+                spec.tsi = 1;
+                spec.fdt_carousel = CarouselSpec::DelayMs(3_600_000);
+                let mut o = ObjSpec::new(rng.bytes(len), "file:///restart/o.bin");
+                o.oti = Some(oti.clone());
+                o.md5 = false;
+                emit(&spec, &[o], &EmitOpts { step_ms: 10, max_instants: 30, ..Default::default() })
+            };
+            let (a, b) = match (mk(&mut rng), mk(&mut rng)) {
+                (Ok(a), Ok(b)) => (a, b),
+                _ => return cr,
+            };
+            let ep = a.spec.endpoint();
+            // the first session is cut after its FDT and 1 .. n-1 object packets (some of them lost)
+            let first_obj = a.stream.iter().position(|p| p.toi() != 0).unwrap_or(0);
+            let nobj = a.stream.len() - first_obj;
+            if nobj < 2 {
+                return cr;
+            }
+            let cut = first_obj + rng.range(1, nobj as u64 - 1) as usize;
+            let keep_a: Vec<usize> = (0..cut).filter(|k| *k < first_obj || rng.chance(3, 4)).collect();
+            let cleanup_between = rng.chance(1, 2);
+            let r = util::guarded(|| {
+                let (builder, log) = vh::mwriter::MonBuilder::new(Default::default());
+                let mut rx = flute::receiver::MultiReceiver::new(builder.clone(), Some(RxOpts::default().config), false);
+                for k in &keep_a {
+                    let _ = rx.push(&ep, &a.stream[*k].bytes, a.stream[*k].t);
+                }
+                let cs = flute::verif::new_alc_pkt_close_session(&0u128, 1);
+                let _ = rx.push(&ep, &cs, a.stream[cut - 1].t);
+                if cleanup_between {
+                    rx.cleanup(a.stream[cut - 1].t);
+                }
+                for p in &b.stream {
+                    let _ = rx.push(&ep, &p.bytes, p.t);
+                }
+                drop(rx);
+                let l = log.borrow();
+                l.writers.iter().map(|w| (w.state, w.data.clone())).collect::<Vec<_>>()
+            });
+            let writers = match r {
+                Ok(w) => w,
+                Err(p) => {
+                    cr.violations.push(Violation::new("panic", format!("{} @ {}", p.msg, p.short_loc())).with("site", p.file()).with("tag", "restarted_sender"));
+                    return cr;
+                }
+            };
+            let (da, db) = (&a.objs[0].data, &b.objs[0].data);
+            let wit = json!({"oti": oti.json(), "len": len, "first_session_packets_delivered": keep_a, "cut": cut, "cleanup_between": cleanup_between});
+            let mut completes = 0u64;
+            let mut v2 = false;
+            for (st, data) in &writers {
+                if *st != WState::Complete {
+                    continue;
+                }
+                completes += 1;
+                v2 |= data == db;
+                if data != da && data != db {
+                    let from_a = data.iter().zip(da.iter()).filter(|(x, y)| x == y).count();
+                    let from_b = data.iter().zip(db.iter()).filter(|(x, y)| x == y).count();
+                    cr.violations.push(Violation::new("complete_with_wrong_bytes", format!(
+                        "sender stopped after {} packets (close-session) and restarted with the same TSI / TOI / FDT id: a writer completed with {} bytes that are neither version ({} bytes agree with the first, {} with the second)", keep_a.len(), data.len(), from_a, from_b))
+                        .with("tag", "restarted_sender").with("fec", fec.name()).with("md5", false).witness(wit.clone()));
+                }
+            }
+            if !v2 {
+                cr.violations.push(Violation::new("second_session_not_delivered", format!("the restarted session (clean, in order, after a close-session packet) is not delivered: writers {:?}", writers.iter().map(|w| w.0).collect::<Vec<_>>()))
+                    .with("tag", "restarted_sender").with("fec", fec.name()).witness(wit));
+            }
+            cr.count("histories", 1);
+            cr.count("writers", writers.len() as u64);
+            cr.count("completes", completes);
+            if completes > 0 {
+                cr.shape = Some(util::fnv(&format!("rs|{}|{}|{}|{}", fec.name(), oti.inband_fti, cleanup_between, cut * 4 / a.stream.len().max(1))));
+            }
+            if i % 97 == 0 {
+                cr.sample = Some(json!({"fec": fec.name(), "cut_after": cut, "writers": writers.len(), "completes": completes}));
+            }
+            cr
+        }));
         gens
     });
 }
